@@ -53,6 +53,9 @@ fn dump() {
         show("z_loops", a, z_loops(a));
         show("z_mutation", a, z_mutation(a));
         show("z_dispatch", a, z_dispatch(a));
+        if a.iter().all(|x| *x < 0x7000_0000) {
+            show("z_more", a, z_more(a));
+        }
         if !cfg!(debug_assertions) {
             show("z_wrap", a, z_wrap(a));
         }
